@@ -10,12 +10,18 @@ C12's `booth_least` (`model_hash_*` near the end); collision-freeness of the dig
 end), never an axiom.  The rejection theorems hold for every rotation function (`hashWith rot`),
 hence also for the Booth-loop model.
 
-Strand-closed alphabet.  "Equal up to strand" is an equivalence only where reverse-complementing
-twice gives the sequence back; that fails for `U` (complemented to `A`) and `Z` (complemented to
-the zero rune), both of which `Hash` accepts.  `hash_inj` is therefore stated, in the
-double-stranded case, under the hypothesis that both normalised sequences are over the 15 codes
-`ACGTRYSWKMBDHVN` (`Iupac15`); `hash_inj_general` is the unconditional statement (some strand of
-one equals, up to rotation, some strand of the other).
+KNOWN FINDING C05-dna-u-strand.  The full-strength separation clause is FALSE of the code: `Hash`
+accepts `U` under type DNA (only RNA rewrites it to `T`), and `U` and `T` have the same complement
+`A`, so for double-stranded DNA two inputs that differ only in `U` vs `T` — not the same molecule —
+receive the same seqhash (`hash_inj_dna_u_witness`, kernel-checked on the model).  The clause is
+therefore proved as `hash_inj_partial` under the hypothesis that excludes exactly that class
+(double-stranded, type DNA, a `U` in the sequence).  `Z` (complemented to the zero rune, under DNA
+and RNA) is NOT excluded: complementing is injective on the accepted nucleotide letters other than
+`U`, so nothing collides with `Z`.
+
+"Sequence" in the conclusions means the NORMALISED sequence `norm ty s`: upper-cased (C04's case
+clause) and, under type RNA, with `U` read as `T` (the first statements of `Hash`; under RNA the two
+spellings `T` and `U` of a letter are identified by design, see `rna_reads_u_as_t`).
 -/
 namespace PolyVerif.Props.C05
 open PolyVerif PolyVerif.Seqhash PolyVerif.Transform PolyVerif.Spec
@@ -28,9 +34,11 @@ theorem hex_length (bs : List UInt8) : (hex bs).length = 2 * bs.length := Seqhas
 def SameUpToRotation (circ : Bool) (x y : Str) : Prop := if circ then IsRotation x y else x = y
 
 /-- the normalised sequences denote the same molecule: equal up to rotation when circular, and up
-to strand (reverse complement) when double-stranded -/
+to strand when double-stranded (one is the reverse complement of the other, in either direction —
+the relation is symmetric by definition, also where `revComp` is not an involution) -/
 def SameMolecule (x y : Str) (circ ds : Bool) : Prop :=
-  SameUpToRotation circ x y ∨ (ds = true ∧ SameUpToRotation circ x (revComp y))
+  SameUpToRotation circ x y ∨
+    (ds = true ∧ (SameUpToRotation circ x (revComp y) ∨ SameUpToRotation circ (revComp x) y))
 
 /-- the strands a declared molecule consists of -/
 def strands (ds : Bool) (x : Str) : List Str := if ds then [x, revComp x] else [x]
@@ -50,6 +58,27 @@ theorem SameUpToRotation.revComp {circ : Bool} {x y : Str} (h : SameUpToRotation
   cases circ
   · exact congrArg Transform.revComp h
   · exact Seqhash.IsRotation.revComp h
+
+theorem SameMolecule.symm {x y : Str} {circ ds : Bool} (h : SameMolecule x y circ ds) : SameMolecule y x circ ds := by
+  rcases h with h | ⟨hd, h | h⟩
+  · exact Or.inl h.symm
+  · exact Or.inr ⟨hd, Or.inr h.symm⟩
+  · exact Or.inr ⟨hd, Or.inl h.symm⟩
+
+/-- a double-stranded nucleic-acid sequence without `U`: letters among the accepted nucleotide letters
+other than `U` (`Z` allowed) -/
+def NoU (t : Str) : Prop := (∀ c ∈ t, c ∈ nucleotideLetters) ∧ 'U' ∉ t
+
+instance (t : Str) : Decidable (NoU t) := by unfold NoU; infer_instance
+
+/-- on `U`-free nucleotide strings reverse-complementing can be cancelled on both sides -/
+theorem SameUpToRotation.of_revComp {circ : Bool} {x y : Str} (hx : NoU x) (hy : NoU y)
+    (h : SameUpToRotation circ (Transform.revComp x) (Transform.revComp y)) : SameUpToRotation circ x y := by
+  have key : SameUpToRotation circ ((Transform.revComp x).reverse.map decompl) ((Transform.revComp y).reverse.map decompl) := by
+    cases circ
+    · exact congrArg (fun t => t.reverse.map decompl) h
+    · exact (IsRotation.reverse h).map decompl
+  rwa [revComp_cancel hx.1 hx.2, revComp_cancel hy.1 hy.2] at key
 
 /-- single-stranded canonical representatives coincide exactly on `SameUpToRotation` -/
 theorem canon_ss_eq_iff (circ : Bool) (x y : Str) :
@@ -77,37 +106,36 @@ theorem canon_eq_strands {x y : Str} {circ ds : Bool} (h : canonSpec x circ ds =
     · exact ⟨revComp x, by simp [strands], y, by simp [strands], (canon_ss_eq_iff _ _ _).1 h⟩
     · exact ⟨revComp x, by simp [strands], revComp y, by simp [strands], (canon_ss_eq_iff _ _ _).1 h⟩
 
-/-- on the strand-closed alphabet that is `SameMolecule` -/
+/-- without `U` that is `SameMolecule` -/
 theorem sameMolecule_of_canon_eq {x y : Str} {circ ds : Bool}
-    (hx : ds = true → Iupac15 x) (hy : ds = true → Iupac15 y)
+    (hx : ds = true → NoU x) (hy : ds = true → NoU y)
     (h : canonSpec x circ ds = canonSpec y circ ds) : SameMolecule x y circ ds := by
   obtain ⟨x', hx', y', hy', hs⟩ := canon_eq_strands h
   cases ds
   · simp only [strands, Bool.false_eq_true, ↓reduceIte, List.mem_singleton] at hx' hy'
     subst hx'; subst hy'
     exact Or.inl hs
-  · have rx := (hx rfl).rc_rc
-    have ry := (hy rfl).rc_rc
-    simp only [strands, ↓reduceIte, List.mem_cons, List.not_mem_nil, or_false] at hx' hy'
+  · simp only [strands, ↓reduceIte, List.mem_cons, List.not_mem_nil, or_false] at hx' hy'
     rcases hx' with rfl | rfl <;> rcases hy' with rfl | rfl
     · exact Or.inl hs
-    · exact Or.inr ⟨rfl, hs⟩
-    · right; refine ⟨rfl, ?_⟩
-      have := hs.revComp; rwa [rx] at this
-    · left
-      have := hs.revComp; rwa [rx, ry] at this
+    · exact Or.inr ⟨rfl, Or.inl hs⟩
+    · exact Or.inr ⟨rfl, Or.inr hs⟩
+    · exact Or.inl (hs.of_revComp (hx rfl) (hy rfl))
 
-/-- conversely the same molecule has the same canonical representative (C04 at the level of `canonSpec`) -/
-theorem canon_eq_of_sameMolecule {x y : Str} {circ ds : Bool} (hy : ds = true → Iupac15 y)
+/-- conversely the same molecule has the same canonical representative (C04 at the level of
+`canonSpec`; on C04's strand domain, the 15 IUPAC codes) -/
+theorem canon_eq_of_sameMolecule {x y : Str} {circ ds : Bool}
+    (hx : ds = true → Iupac15 x) (hy : ds = true → Iupac15 y)
     (h : SameMolecule x y circ ds) : canonSpec x circ ds = canonSpec y circ ds := by
   have rot : ∀ {u v : Str} (d : Bool), SameUpToRotation circ u v → canonSpec u circ d = canonSpec v circ d := by
     intro u v d huv
     cases circ
     · exact congrArg (fun t => canonSpec t false d) huv
     · exact canonSpec_of_isRotation huv d
-  rcases h with h | ⟨rfl, h⟩
+  rcases h with h | ⟨rfl, h | h⟩
   · exact rot ds h
   · rw [rot true h, canonSpec_revComp (hy rfl).rc_rc]
+  · rw [← rot true h, canonSpec_revComp (hx rfl).rc_rc]
 
 /-! ### separation -/
 
@@ -123,16 +151,103 @@ theorem hash_inj_canon {blake : List UInt8 → List UInt8} (hb : Function.Inject
   refine ⟨rfl, rfl, rfl, ?_⟩
   exact bytes_injective (acc₁.canon_ascii ca) (acc₂.canon_ascii ca) (hb (hex_injective hhex))
 
+theorem noU_norm_rna (s : Str) : 'U' ∉ norm "RNA" s := by
+  simp only [norm, ↓reduceIte, uToT, List.mem_map, not_exists, not_and]
+  intro c _
+  split
+  · decide
+  · rename_i h; exact h
+
+theorem Accepted.noU {ty : String} {t : Str} (h : Accepted ty true t) (hu : 'U' ∉ t) : NoU t := by
+  rcases h with ⟨_, hl⟩ | ⟨_, _, hd⟩
+  · exact ⟨hl, hu⟩
+  · exact absurd hd (by simp)
+
+/- The clause at full strength, as the property states it:
+
+     hash_inj : Function.Injective blake →
+         hash blake a ta ca da = .ok h → hash blake b tb cb db = .ok h →
+         ta = tb ∧ ca = cb ∧ da = db ∧ SameMolecule (norm ta a) (norm tb b) ca da
+
+   is REFUTED by `hash_inj_dna_u_witness` below (known finding C05-dna-u-strand).  What is proved is
+   the same statement under the hypothesis `hcl`, which excludes exactly the finding's class:
+   double-stranded, type DNA, a `U` (or `u`) in the sequence. -/
+
 /-- Two accepted inputs receive the same seqhash only if they denote the same molecule: same type,
 topology and strandedness, and normalised sequences equal up to rotation when circular and up to
-strand when double-stranded (double-stranded case on the strand-closed alphabet, see header). -/
-theorem hash_inj {blake : List UInt8 → List UInt8} (hb : Function.Injective blake)
+strand when double-stranded — PARTIAL: for double-stranded DNA the sequences must not contain `U`
+(under RNA `U` has been rewritten to `T`; `Z` and every other accepted letter are covered). -/
+theorem hash_inj_partial {blake : List UInt8 → List UInt8} (hb : Function.Injective blake)
     {a b : Str} {ta tb : String} {ca da cb db : Bool} {h : Str}
-    (hcl : da = true → Iupac15 (norm ta a) ∧ Iupac15 (norm tb b))
+    (hcl : da = true → (ta = "DNA" → 'U' ∉ upper a) ∧ (tb = "DNA" → 'U' ∉ upper b))
     (h₁ : hashSpec blake a ta ca da = .ok h) (h₂ : hashSpec blake b tb cb db = .ok h) :
     ta = tb ∧ ca = cb ∧ da = db ∧ SameMolecule (norm ta a) (norm tb b) ca da := by
+  have acc₁ := (hashSpec_ok_iff.1 h₁).1
+  have acc₂ := (hashSpec_ok_iff.1 h₂).1
   obtain ⟨rfl, rfl, rfl, hc⟩ := hash_inj_canon hb h₁ h₂
-  exact ⟨rfl, rfl, rfl, sameMolecule_of_canon_eq (fun hd => (hcl hd).1) (fun hd => (hcl hd).2) hc⟩
+  refine ⟨rfl, rfl, rfl, sameMolecule_of_canon_eq ?_ ?_ hc⟩
+  all_goals
+    intro hd
+    subst hd
+  · refine Accepted.noU acc₁ ?_
+    by_cases hr : ta = "RNA"
+    · subst hr; exact noU_norm_rna a
+    · have : norm ta a = upper a := by simp [norm, hr]
+      rw [this]
+      rcases acc₁ with ⟨hty | hty, _⟩ | ⟨_, _, hd⟩
+      · exact (hcl rfl).1 hty
+      · exact absurd hty hr
+      · exact absurd hd (by simp)
+  · refine Accepted.noU acc₂ ?_
+    by_cases hr : ta = "RNA"
+    · subst hr; exact noU_norm_rna b
+    · have : norm ta b = upper b := by simp [norm, hr]
+      rw [this]
+      rcases acc₂ with ⟨hty | hty, _⟩ | ⟨_, _, hd⟩
+      · exact (hcl rfl).2 hty
+      · exact absurd hty hr
+      · exact absurd hd (by simp)
+
+/-- the finding, for EVERY digest: under double-stranded DNA the one-letter sequences `U` and `T`
+(and the circular `UC` and `TC`) are both accepted and receive the same seqhash … -/
+theorem dna_u_collision (blake : List UInt8 → List UInt8) :
+    (∃ h, hashSpec blake "U".toList "DNA" false true = .ok h ∧ hashSpec blake "T".toList "DNA" false true = .ok h) ∧
+    (∃ h, hashSpec blake "UC".toList "DNA" true true = .ok h ∧ hashSpec blake "TC".toList "DNA" true true = .ok h) := by
+  refine ⟨⟨_, hashSpec_ok blake _ _ _ _ (by decide), ?_⟩, ⟨_, hashSpec_ok blake _ _ _ _ (by decide), ?_⟩⟩
+  · rw [hashSpec_ok blake _ _ _ _ (by decide)]
+    have : canonSpec (norm "DNA" "T".toList) false true = canonSpec (norm "DNA" "U".toList) false true := by decide
+    rw [this]
+  · rw [hashSpec_ok blake _ _ _ _ (by decide)]
+    have : canonSpec (norm "DNA" "TC".toList) true true = canonSpec (norm "DNA" "UC".toList) true true := by decide
+    rw [this]
+
+/-- … although they are not the same molecule: neither equals the other or the other's reverse
+complement (both have the reverse complement `A`, resp. `GA`), in either direction -/
+theorem dna_u_not_same :
+    ¬ SameMolecule (norm "DNA" "U".toList) (norm "DNA" "T".toList) false true ∧
+    ¬ SameMolecule (norm "DNA" "UC".toList) (norm "DNA" "TC".toList) true true := by
+  constructor
+  · simp only [SameMolecule, SameUpToRotation, Bool.false_eq_true, ↓reduceIte, true_and]
+    decide
+  · have hmem : ∀ {a b : Str} (c : Char), c ∈ a → c ∉ b → ¬ IsRotation a b :=
+      fun c ha hb h => hb (h.mem_iff.1 ha)
+    simp only [SameMolecule, SameUpToRotation, ↓reduceIte, true_and]
+    rintro (h | h | h)
+    · exact hmem 'U' (by decide) (by decide) h
+    · exact hmem 'U' (by decide) (by decide) h
+    · exact hmem 'T' (by decide) (by decide) h.symm
+
+/-- KNOWN FINDING C05-dna-u-strand, kernel-checked on the model of the code (`Seqhash.hash`, Booth
+loop included): the separation clause at full strength is false, even for an injective digest -/
+theorem hash_inj_dna_u_witness :
+    ¬ ∀ (blake : List UInt8 → List UInt8), Function.Injective blake →
+      ∀ (a b : Str) (ta tb : String) (ca da cb db : Bool) (h : Str),
+        Seqhash.hash blake a ta ca da = .ok h → Seqhash.hash blake b tb cb db = .ok h →
+        ta = tb ∧ ca = cb ∧ da = db ∧ SameMolecule (norm ta a) (norm tb b) ca da := by
+  intro hall
+  obtain ⟨⟨h, h₁, h₂⟩, _⟩ := dna_u_collision id
+  rw [← Props.C12Booth.hash_eq_hashSpec] at h₁ h₂
+  exact dna_u_not_same.1 (hall id (fun _ _ e => e) _ _ _ _ _ _ _ _ h h₁ h₂).2.2.2
 
 /-- the unconditional form (any accepted letters, including `U` under DNA and `Z`): some strand of
 the one is, up to rotation, some strand of the other -/
@@ -148,14 +263,16 @@ theorem hash_inj_general {blake : List UInt8 → List UInt8} (hb : Function.Inje
 kind that denote the same molecule receive the same seqhash — for every digest -/
 theorem hash_same_molecule (blake : List UInt8 → List UInt8) {a b : Str} {ty : String} {c d : Bool}
     (ha : Accepted ty d (norm ty a)) (hb : Accepted ty d (norm ty b))
-    (hcl : d = true → Iupac15 (norm ty b))
+    (hcl : d = true → Iupac15 (norm ty a) ∧ Iupac15 (norm ty b))
     (h : SameMolecule (norm ty a) (norm ty b) c d) :
     hashSpec blake a ty c d = hashSpec blake b ty c d := by
-  rw [hashSpec_ok _ _ _ _ _ ha, hashSpec_ok _ _ _ _ _ hb, canon_eq_of_sameMolecule hcl h]
+  rw [hashSpec_ok _ _ _ _ _ ha, hashSpec_ok _ _ _ _ _ hb,
+    canon_eq_of_sameMolecule (fun hd => (hcl hd).1) (fun hd => (hcl hd).2) h]
 
 /-! ### the published v1 form -/
 
-/-- the tag letters describe the declared molecule -/
+/-- the tag letters describe the declared molecule (a definitional unfolding of the model's `tag`,
+recorded for reference; the form clause proper is `hash_form` + the correspondence) -/
 theorem tag_form (ty : String) (c d : Bool) :
     tag ty c d = [if ty = "DNA" then 'D' else if ty = "RNA" then 'R' else 'P',
                   if c then 'C' else 'L', if d then 'D' else 'S'] := rfl
@@ -168,7 +285,7 @@ theorem hash_form (blake : List UInt8 → List UInt8) (s : Str) (ty : String) (c
       .ok ("v1_".toList ++ tag ty c d ++ ['_'] ++ hex (blake (bytes (canonSpec (norm ty s) c d)))) :=
   hashSpec_ok blake s ty c d h
 
-/-- the canonical representative spelled out -/
+/-- the canonical representative spelled out (definitional unfolding, recorded for reference) -/
 theorem canon_form (t : Str) :
     canonSpec t false false = t ∧ canonSpec t true false = leastRotation t ∧
     canonSpec t false true = lexMin t (revComp t) ∧
@@ -192,6 +309,14 @@ theorem hex_len (blake : List UInt8 → List UInt8) (hlen : ∀ x, (blake x).len
   refine ⟨by rw [v1_length, hlen], ht.1, ?_, ?_⟩
   · rw [ht.2, Seqhash.hex_length, hlen]
   · rw [ht.2]; exact hex_digits _
+
+/-- the hypothesis of `hex_len` holds of the digest the correspondence check instantiates the model
+with (the Lean BLAKE3-256 of Base/Blake3): it always returns 32 bytes -/
+theorem hex_len_blake3 {s : Str} {ty : String} {c d : Bool} {h : Str}
+    (e : hashSpec Blake3.sum256 s ty c d = .ok h) :
+    h.length = 71 ∧ (h.drop 7).length = 64 ∧ ∀ x ∈ h.drop 7, x ∈ "0123456789abcdef".toList := by
+  have := hex_len Blake3.sum256 Blake3.sum256_length e
+  exact ⟨this.1, this.2.2.1, this.2.2.2⟩
 
 /-! ### rejections (for every rotation function, so also for the Booth-loop model `hash`) -/
 
@@ -251,12 +376,12 @@ equal to the arg-min, so `hash = hashSpec` and nothing is left "modulo C12". -/
 
 theorem hash_model_eq_spec : Seqhash.hash = Seqhash.hashSpec := Props.C12Booth.hash_eq_hashSpec
 
-theorem model_hash_inj {blake : List UInt8 → List UInt8} (hb : Function.Injective blake)
+theorem model_hash_inj_partial {blake : List UInt8 → List UInt8} (hb : Function.Injective blake)
     {a b : Str} {ta tb : String} {ca da cb db : Bool} {h : Str}
-    (hcl : da = true → Iupac15 (norm ta a) ∧ Iupac15 (norm tb b))
+    (hcl : da = true → (ta = "DNA" → 'U' ∉ upper a) ∧ (tb = "DNA" → 'U' ∉ upper b))
     (h₁ : Seqhash.hash blake a ta ca da = .ok h) (h₂ : Seqhash.hash blake b tb cb db = .ok h) :
     ta = tb ∧ ca = cb ∧ da = db ∧ SameMolecule (norm ta a) (norm tb b) ca da := by
-  rw [hash_model_eq_spec] at h₁ h₂; exact hash_inj hb hcl h₁ h₂
+  rw [hash_model_eq_spec] at h₁ h₂; exact hash_inj_partial hb hcl h₁ h₂
 
 theorem model_hash_inj_general {blake : List UInt8 → List UInt8} (hb : Function.Injective blake)
     {a b : Str} {ta tb : String} {ca da cb db : Bool} {h : Str}
@@ -267,7 +392,7 @@ theorem model_hash_inj_general {blake : List UInt8 → List UInt8} (hb : Functio
 
 theorem model_hash_same_molecule (blake : List UInt8 → List UInt8) {a b : Str} {ty : String} {c d : Bool}
     (ha : Accepted ty d (norm ty a)) (hb : Accepted ty d (norm ty b))
-    (hcl : d = true → Iupac15 (norm ty b))
+    (hcl : d = true → Iupac15 (norm ty a) ∧ Iupac15 (norm ty b))
     (h : SameMolecule (norm ty a) (norm ty b) c d) :
     Seqhash.hash blake a ty c d = Seqhash.hash blake b ty c d := by
   rw [hash_model_eq_spec]; exact hash_same_molecule blake ha hb hcl h
@@ -296,7 +421,7 @@ def toyDigest : List UInt8 → List UInt8 := id
 
 theorem toyDigest_injective : Function.Injective toyDigest := fun _ _ h => h
 
-/-- the hypotheses of `hash_inj` are satisfiable on a non-trivial pair: a plasmid and a rotation of
+/-- the premises of `hash_inj_partial` are satisfiable on a non-trivial pair: a plasmid and a rotation of
 its reverse complement, declared circular double-stranded -/
 example : ∃ h, hashSpec toyDigest "AACG".toList "DNA" true true = .ok h ∧
     hashSpec toyDigest "TTCG".toList "DNA" true true = .ok h :=
@@ -304,20 +429,21 @@ example : ∃ h, hashSpec toyDigest "AACG".toList "DNA" true true = .ok h ∧
     rw [hashSpec_ok toyDigest _ _ _ _ (by decide)]
     congr 2⟩
 
-example : Iupac15 (norm "DNA" "AACG".toList) ∧ Iupac15 (norm "DNA" "TTCG".toList) := by decide
+example : 'U' ∉ upper "AACG".toList ∧ 'U' ∉ upper "TTCG".toList := by decide
 example : SameMolecule "AACG".toList "TTCG".toList true true :=
-  Or.inr ⟨rfl, ⟨2, by decide⟩⟩
-/-- distinct molecules are separated: the conclusion of `hash_inj` can fail, so the theorem has content -/
+  Or.inr ⟨rfl, Or.inl ⟨2, by decide⟩⟩
+/-- distinct molecules are separated: the conclusion of `hash_inj_partial` can fail, so the theorem has content -/
 example : canonSpec "AACG".toList true true ≠ canonSpec "AACC".toList true true := by decide
-/-- the strand-closed hypothesis of `hash_inj` cannot be dropped: `U` is accepted under DNA and is
-complemented to `A`, so `AU` and `AT` (linear, double-stranded) have the same representative although
-neither is the other or the other's reverse complement; `hash_inj_general` is what holds there -/
-example : Accepted "DNA" true (norm "DNA" "AU".toList) ∧
-    canonSpec "AU".toList false true = canonSpec "AT".toList false true ∧
-    ¬ SameMolecule "AU".toList "AT".toList false true := by
-  refine ⟨by decide, by decide, ?_⟩
-  simp only [SameMolecule, SameUpToRotation, Bool.false_eq_true, ↓reduceIte, true_and]
-  decide
+/-- `Z` is inside `hash_inj_partial` (its complement, the zero rune, is shared with no other letter) -/
+example : Accepted "DNA" true (norm "DNA" "AZ".toList) ∧ NoU (norm "DNA" "AZ".toList) := by decide
+/-- under type RNA the spellings `U` and `T` are identified by `Hash` itself (first statements: upper-case,
+`U → T`); the conclusions speak of the normalised sequence -/
+theorem rna_reads_u_as_t (blake : List UInt8 → List UInt8) :
+    hashSpec blake "ACGU".toList "RNA" false false = hashSpec blake "ACGT".toList "RNA" false false ∧
+    norm "RNA" "ACGU".toList = norm "RNA" "ACGT".toList := by
+  refine ⟨?_, by decide⟩
+  rw [hashSpec_ok blake _ _ _ _ (by decide), hashSpec_ok blake _ _ _ _ (by decide)]
+  congr 2
 example : Accepted "PROTEIN" false (norm "PROTEIN" "mkv*".toList) := by decide
 example : ¬ Accepted "DNA" false (norm "DNA" "ACGX".toList) := by decide
 /-- a digest of constant length 32 exists (hypothesis of `hex_len`) -/
